@@ -1743,10 +1743,10 @@ class HttpHeaderFieldParsedBase(HttpHeaderFieldBase):
     def _parse(cls, parsable):
         parser = cls._parse_name_and_separator(parsable)
 
-        parser.parse_separator(' ', min_length=0, max_length=None)
+        parser.parse_separator(' \t', min_length=0, max_length=None)
         parser.parse_string_until_separator('value', ['\r\n', ])
 
-        value = cls._get_value_class().parse_exact_size(six.ensure_binary(parser['value'], 'ascii'))
+        value = cls._get_value_class().parse_exact_size(six.ensure_binary(parser['value'].rstrip(' \t'), 'ascii'))
 
         return cls(value), parser.parsed_length
 
@@ -2005,10 +2005,10 @@ class HttpHeaderFieldUnparsed(FieldParsableBase, Serializable):
     def _parse(cls, parsable):
         parser = cls._parse_name(parsable)
         parser.parse_separator(cls.get_separator())
-        parser.parse_separator(' ', min_length=0, max_length=None)
+        parser.parse_separator(' \t', min_length=0, max_length=None)
         parser.parse_string_until_separator('value', '\r\n')
 
-        return cls(parser['name'], parser['value']), parser.parsed_length
+        return cls(parser['name'], parser['value'].rstrip(' \t')), parser.parsed_length
 
     def compose(self):
         composer = ComposerText()
